@@ -398,11 +398,31 @@ pub fn weighted_usize_big_rate(max_order: usize, ordinary: u32) -> BoxedStrategy
     weighted_usize_from(raw_dg_big_rate(max_order, ordinary).boxed())
 }
 
+/// "Big-M" weights: exactly one arc gets a weight around MAX / 2 (walk sums
+/// still fit: every other weight is below 2^40).  Applied to one case in 16.
+pub fn big_m_usize(arcs: &mut [(usize, usize, usize)], pick: u32) -> bool {
+    if pick % 16 != 0 || arcs.is_empty() {
+        return false;
+    }
+    let i = (pick as usize / 16) % arcs.len();
+    arcs[i].2 = usize::MAX / 2 + (pick as usize % 5);
+    true
+}
+
+pub fn big_m_isize(arcs: &mut [(usize, usize, isize)], pick: u32) -> bool {
+    if pick % 16 != 0 || arcs.is_empty() || arcs.iter().any(|a| a.2 < 0) {
+        return false;
+    }
+    let i = (pick as usize / 16) % arcs.len();
+    arcs[i].2 = isize::MAX / 2 + (pick as isize % 5);
+    true
+}
+
 fn weighted_usize_from(raw: BoxedStrategy<RawDg>) -> BoxedStrategy<(WDg<usize>, String)> {
     (raw, any::<u8>(), vec(any::<u32>(), 64))
         .prop_map(|(r, class, ws)| {
             let d = build_dg(&r);
-            let arcs = d
+            let mut arcs: Vec<(usize, usize, usize)> = d
                 .arcs
                 .iter()
                 .enumerate()
@@ -410,12 +430,13 @@ fn weighted_usize_from(raw: BoxedStrategy<RawDg>) -> BoxedStrategy<(WDg<usize>, 
                     (u, v, uweight(class, ws[(i * 7 + u * 3 + v) % ws.len()]))
                 })
                 .collect();
+            let big = big_m_usize(&mut arcs, ws[0]);
             (
                 WDg {
                     order: d.order,
                     arcs,
                 },
-                format!("{}/w{}", family_name(&r), class % 6),
+                format!("{}/w{}{}", family_name(&r), class % 6, if big { "+bigM" } else { "" }),
             )
         })
         .boxed()
@@ -504,13 +525,14 @@ fn weighted_isize_from(raw: BoxedStrategy<RawDg>) -> BoxedStrategy<(WDg<isize>, 
     )
         .prop_map(|(r, class, ws, pot)| {
             let d = build_dg(&r);
-            let (arcs, name) = iweights(&d, class, &ws, &pot);
+            let (mut arcs, name) = iweights(&d, class, &ws, &pot);
+            let big = big_m_isize(&mut arcs, ws[0]);
             (
                 WDg {
                     order: d.order,
                     arcs,
                 },
-                format!("{}/{}", family_name(&r), name),
+                format!("{}/{}{}", family_name(&r), name, if big { "+bigM" } else { "" }),
             )
         })
         .boxed()
@@ -949,6 +971,42 @@ pub fn dense_near_miss() -> BoxedStrategy<(Dg, String)> {
                 },
                 format!("dense:{name}"),
             )
+        })
+        .boxed()
+}
+
+/// Restricts a digraph to its first `cap` vertices.
+pub fn truncate_dg(mut g: Dg, cap: usize) -> Dg {
+    if g.order > cap {
+        g.order = cap;
+        g.arcs.retain(|&(u, v)| u < cap && v < cap);
+    }
+    g
+}
+
+pub fn huge_wusize(cap: usize) -> BoxedStrategy<(WDg<usize>, String)> {
+    (huge_dg(), any::<u8>(), vec(any::<u32>(), 64))
+        .prop_map(move |((d, name), class, ws)| {
+            let d = truncate_dg(d, cap);
+            let mut arcs: Vec<(usize, usize, usize)> = d
+                .arcs
+                .iter()
+                .enumerate()
+                .map(|(i, &(u, v))| (u, v, uweight(class, ws[(i * 7 + u * 3 + v) % ws.len()])))
+                .collect();
+            let big = big_m_usize(&mut arcs, ws[0]);
+            (WDg { order: d.order, arcs }, format!("{name}/w{}{}", class % 6, if big { "+bigM" } else { "" }))
+        })
+        .boxed()
+}
+
+pub fn huge_wisize(cap: usize) -> BoxedStrategy<(WDg<isize>, String)> {
+    (huge_dg(), any::<u8>(), vec(any::<u32>(), 64), vec(any::<u16>(), 16))
+        .prop_map(move |((d, name), class, ws, pot)| {
+            let d = truncate_dg(d, cap);
+            let (mut arcs, wname) = iweights(&d, class, &ws, &pot);
+            let big = big_m_isize(&mut arcs, ws[0]);
+            (WDg { order: d.order, arcs }, format!("{name}/{wname}{}", if big { "+bigM" } else { "" }))
         })
         .boxed()
 }
